@@ -88,6 +88,9 @@ func (h *bufHandler) ServeHTTP(w http.ResponseWriter, req *http.Request) {
 	}
 	w.Header().Set("X-Attempt", strconv.Itoa(h.k))
 	w.Header().Set(fmt.Sprintf("X-Marker-%d", h.k), "1")
+	// a header with several values, and one written straight into the map under a non-canonical key
+	w.Header()["X-Multi"] = []string{fmt.Sprintf("m1-%d", h.k), fmt.Sprintf("m2-%d", h.k), fmt.Sprintf("m3-%d", h.k)}
+	w.Header()["x-raw-key"] = []string{fmt.Sprintf("r-%d", h.k)}
 	if boolOr(sc, "cl0", false) {
 		w.Header().Set("Content-Length", "0")
 	}
@@ -257,6 +260,14 @@ func analyse(hdr http.Header, data []byte) (from int, foreign, bodyok bool, hbyt
 			if n, _ := strconv.Atoi(strings.TrimPrefix(name, "X-Marker-")); n != from {
 				foreign = true
 			}
+		}
+	}
+	// the final attempt's multi-valued and raw-keyed headers must arrive whole
+	if from > 0 {
+		want := fmt.Sprintf("m1-%d|m2-%d|m3-%d", from, from, from)
+		raw := strings.Join(hdr["x-raw-key"], "|") + strings.Join(hdr["X-Raw-Key"], "|")
+		if strings.Join(hdr["X-Multi"], "|") != want || raw != fmt.Sprintf("r-%d", from) {
+			foreign = true
 		}
 	}
 	bodyok = true
